@@ -537,6 +537,9 @@ def run_mps(c):
 def main():
     payload = json.load(open(sys.argv[1]))
     fs = {'history': run_history, 'mps': run_mps}
+    if any(kc[0] == 'mpshist' for kc in payload['cases']):
+        import c03_mpshist_impl             # MPS-level histories (stream mps-history, Model/StoreMps.v)
+        fs['mpshist'] = c03_mpshist_impl.run_mps_history
     res = base.isolated_all(lambda kc: fs[kc[0]](kc[1]), payload['cases'], batch=20)
     info = {'have_cython': bool(optimization.have_cython_functions),
             'npc_file': os.path.realpath(npc.__file__)}
